@@ -125,6 +125,11 @@ func buildMesh(rc *sk.RunCtx, o meshOpts) *meshWorld {
 		versions := []cert.Version{cert.Version2}
 		if o.multiAddr && tp.Chance(1, 2) {
 			spec.nets = append(spec.nets, overlayAddr(i, 1))
+			if o.allowV1 && tp.Chance(1, 3) {
+				// both certificate versions: the v1 certificate carries the first network only and is the one the
+				// node initiates with, so peers first see it with one address and later with two
+				versions = []cert.Version{cert.Version1, cert.Version2}
+			}
 		} else if o.allowV1 {
 			switch tp.Choose(3) {
 			case 1:
